@@ -157,7 +157,7 @@ def unconfirmed_key(doc):
 
 def run(ctx: core.Run):
     t0 = time.time()
-    tables = extract_c01.gen_codec(ctx)
+    tables = ctx.regenerate(extract_c01.gen_codec) or {}     # a reshaped source is a broken tie, never exit 2
     ctx.prove(["PsdVerif.Props.C03"])
     ctx.trusted_base += [
         "Lean 4.33 kernel; axioms allowed: propext, Classical.choice, Quot.sound (audited per theorem)",
@@ -296,7 +296,7 @@ def run(ctx: core.Run):
     for k, e in ev.items():
         if not e.get("eight_byte_confirmed"):
             ctx.disagree("fixture evidence for an observed 8-byte key is gone", {"key": k, "evidence": e})
-    code_big = set(tables["bigKeys"])
+    code_big = set(tables.get("bigKeys", []))
     ctx.extra["bigKeys"] = {
         "code (_BIG_KEYS)": sorted(code_big),
         "adobe_spec_text": "LMsk Lr16 Lr32 Layr Mt16 Mt32 Mtrn Alph FMsk lnk2 FEid FXid PxSD".split(),
@@ -324,6 +324,9 @@ def run(ctx: core.Run):
         "Stated in DESIGN, not proved here: lengths_truthful (every region delimits exactly the encoding of the sub-value), "
         "rle_rowtable_sums and merged_planes (C04/C17; checked in Python on files with real pixel data).",
     ]
+    # ------------------------------------------------------------------ widened entry points and oracles (c03_extra.py)
+    import c03_extra
+    c03_extra.run_extra(ctx, tables, fx_all, jobs, answers)
     ctx.extra["phase_seconds"] = round(time.time() - t0, 1)
     if ctx.tier == "thorough":
         ctx.recheck(["PsdVerif.Props.C03"])
@@ -451,7 +454,18 @@ def replay(ctx, data):
             img = [x for x in r[3] if x[2] == "image-data"]
             print("image data:", image_data_problem(b, r[1], img[0][:2]) if img else None)
             print("channel row tables:", channel_rle_problems(b)[:3])
+            import c03_extra
+            print("layer channels (specification reading):", c03_extra.layer_channel_problems(b, r[1], r[3])[:3])
         rr = cc.read_doc(b)
         print("psd-tools reads it back:", rr[0], rr[1] if rr[0] == "err" else "")
+    elif inp.get("entry") in ("compress", "ChannelData.set_data") and "raw" in inp:
+        # re-run the compression entry point on the recorded raw plane
+        import c03_extra
+        from psd_tools.compression import compress
+        from psd_tools.constants import Compression
+        w, h, depth, version = inp["width"], inp["height"], inp["depth"], inp["version"]
+        body = compress(unhx(inp["raw"]), Compression(inp["compression"]), w, h, depth, version)
+        print("stored now:", hx(body)[:200], "| recorded:", str(inp.get("stored"))[:200])
+        print("problem now:", c03_extra.channel_problem(body, inp["compression"], w, h, depth, version))
     print("expected:", data.get("expected"))
     return 0
